@@ -15,6 +15,7 @@
  *   reset                         (free all objects, allocate fresh ones)
  *   <o> allocinit t r c f         (vnadata_free of object o, then vnadata_alloc_and_init; when that
  *                                  returns NULL the slot receives a fresh vnadata_alloc object)
+ *   <o> setfvself                 (vnadata_set_frequency_vector(v, vnadata_get_frequency_vector(v)))
  *   <o> typename k                (vnadata_get_type_name(k): payload "s <name>" or "s NULL")
  *   <o> setfmtbad j               (vnadata_set_format with the j-th of a few strings that do not
  *                                  parse: must fail, one error report, format unchanged)
@@ -296,6 +297,30 @@ static void rvec(const double complex *p, int n)
     printf("\n");
 }
 
+/* a pointer getter of the library: the raw pointer is printed as its own token (@N = NULL, @P =
+ * not NULL) behind the values, so that a NULL answered to a successful call - allocation still
+ * 0 - is compared with the model's prediction (AccessorsModel.ptr_null) and not hidden by the
+ * classification, which says "fail" only for NULL with an error report */
+static void rptr(const double complex *p, int n)
+{
+    if (p == NULL && cb_count > 0) {
+	rhead("fail");
+	printf("-\n");
+	return;
+    }
+    rhead("ok");
+    printf("V %d", n);
+    for (int i = 0; i < n; ++i) {
+	printf(" ");
+	if (p == NULL) {
+	    printf("NULL");
+	} else {
+	    pv(p[i]);
+	}
+    }
+    printf(" %s\n", p == NULL ? "@N" : "@P");
+}
+
 static int run(void)
 {
     static char line[1 << 16];
@@ -432,9 +457,16 @@ static int run(void)
 		printf("F %d", freqs);
 		for (int i = 0; i < freqs; ++i) {
 		    printf(" ");
-		    pfreq(p[i]);
+		    if (p == NULL) {
+			printf("NULL");
+		    } else {
+			pfreq(p[i]);
+		    }
 		}
-		printf("\n");
+		printf(" %s\n", p == NULL ? "@N" : "@P");
+	    } else if (strcmp(name, "setfvself") == 0) {
+		/* the library's own frequency vector handed back to it: no NULL literal in user code */
+		rint_(vnadata_set_frequency_vector(vdp, vnadata_get_frequency_vector(vdp)));
 	    } else if (strcmp(name, "setfv") == 0) {
 		int n = nint();
 		int size = exact_buffer ? n : (n > freqs ? n : freqs);
@@ -452,7 +484,7 @@ static int run(void)
 		double complex v = nval();
 		rint_(vnadata_set_cell(vdp, f, r, c, v));
 	    } else if (strcmp(name, "getmat") == 0) {
-		rvec(vnadata_get_matrix(vdp, nint()), cells);
+		rptr(vnadata_get_matrix(vdp, nint()), cells);
 	    } else if (strcmp(name, "setmat") == 0) {
 		int f = nint();
 		double complex *v = vlist(cells);
@@ -482,7 +514,7 @@ static int run(void)
 	    } else if (strcmp(name, "setallz0") == 0) {
 		rint_(vnadata_set_all_z0(vdp, nval()));
 	    } else if (strcmp(name, "getz0v") == 0) {
-		rvec(vnadata_get_z0_vector(vdp), ports);
+		rptr(vnadata_get_z0_vector(vdp), ports);
 	    } else if (strcmp(name, "setz0v") == 0) {
 		double complex *v = vlist(ports);
 		rint_(vnadata_set_z0_vector(vdp, v));
@@ -499,7 +531,7 @@ static int run(void)
 		double complex v = nval();
 		rint_(vnadata_set_fz0(vdp, f, p, v));
 	    } else if (strcmp(name, "getfz0v") == 0) {
-		rvec(vnadata_get_fz0_vector(vdp, nint()), ports);
+		rptr(vnadata_get_fz0_vector(vdp, nint()), ports);
 	    } else if (strcmp(name, "setfz0v") == 0) {
 		int f = nint();
 		double complex *v = vlist(ports);
